@@ -25,6 +25,9 @@ def run(rep):
     from .. import par
 
     jobs = [(n, h, m, prio, (1,), 1, tuple(sb.INV_C04 + (sb.INV_C08 if prio else [])), "", True, rep.seed, 4) for n, h, m, prio in cfgs]
+    # the same buffers as task 0 of a MultiTaskReplayBuffer while task 1 receives unrelated steps
+    jobs += [(n, h, m, prio, (1,), 1, tuple(sb.INV_C04), "(multi-task)", True, rep.seed, 4, True)
+             for n, h, m, prio in ([(4, 2, 6, False), (3, 1, 4, True)] if quick else [(4, 2, 8, False), (5, 3, 7, False), (4, 2, 5, True)])]
     for o in par.pmap(sb.config_job, jobs, procs=4):
         out = sb.merge(rep, o)
         if out:
